@@ -248,6 +248,72 @@ theorem valid_implies_invariants_full2 (limit : Nat) (M : MSchemaG) (h : Accepts
   · intro la hla
     exact (C14.directive_applications_rule_iff_spec M.dirDef la.1 la.2).mp (happs la hla)
 
+
+/-! ### growth 3: the invariants that come from the build, non-emptiness, reserved names and values -/
+
+/-- the model schema with the document it was built from (names only), the names it introduces with their
+    origin, and the constants given to the arguments of its applied directives with the argument types -/
+structure MSchemaH extends MSchemaG where
+  /-- the type-system document, as `SchemaBuilder` reads it -/
+  doc : List SchemaBuild.Def
+  docWellFormed : SchemaBuild.WellFormed doc
+  /-- every name the schema introduces, with "is located in the built-in file" -/
+  introduced : SchemaNames.SchemaNames
+  /-- what the value check looks at in the types -/
+  valueSchema : ValueCheck.Schema
+  valueSchemaClosed : ValueCheck.Spec.Closed valueSchema
+  /-- (argument type, constant) for every argument of every directive applied in the schema -/
+  argValues : List (ValueCheck.Ty × ValueCheck.Value)
+  argTypesDefined : ∀ p ∈ argValues, ValueCheck.Spec.Defined valueSchema p.1
+
+def AcceptsH (limit : Nat) (M : MSchemaH) : Prop :=
+  AcceptsG limit M.toMSchemaG ∧
+  (SchemaBuild.build (SchemaBuild.Builder.new false false) [M.doc]).errors = [] ∧
+  SchemaNames.emptyTypeDiags (SchemaBuild.build (SchemaBuild.Builder.new false false) [M.doc]).types = [] ∧
+  SchemaNames.reservedDiags M.introduced = [] ∧
+  (∀ p ∈ M.argValues, ValueCheck.check M.valueSchema [] p.1 p.2 = [])
+
+def InvH (M : MSchemaH) : Prop :=
+  InvG M.toMSchemaG ∧
+  -- type and directive names are unique, every extension extended a type of its kind, members are unique
+  SchemaBuild.BuildSpec M.doc ∧
+  -- every object, interface, union, enum and input object type has a member
+  SchemaBuild.NonEmptyNames M.doc ∧
+  -- the entry of every type lists the members of its definition and of all its extensions
+  (∀ n t, SchemaBuild.findType (SchemaBuild.build (SchemaBuild.Builder.new false false) [M.doc]).types n = some t →
+    ∀ m, SchemaBuild.hasName t.body.members m = true ↔ m ∈ SchemaBuild.memberNames M.doc n) ∧
+  -- no name outside the introspection system starts with two underscores
+  SchemaNames.Spec.NoReservedNames M.introduced ∧
+  -- the constant given to every directive argument is a value of the argument's type
+  (∀ p ∈ M.argValues, ValueCheck.Spec.Coerces M.valueSchema p.1 p.2)
+
+/-- `valid_implies_invariants_full2` extended with the families of C14's third growth: the build rules
+    (`C14.schema_build_iff_spec`), non-emptiness (`C14.nonempty_rule_iff_spec`), the merged member lists
+    (`C14.built_type_has_all_members`), reserved names (`C14.reserved_rule_iff_spec`) and argument values
+    (`C14.value_rule_iff_spec`). -/
+theorem valid_implies_invariants_full3 (limit : Nat) (M : MSchemaH) (h : AcceptsH limit M) : InvH M := by
+  obtain ⟨hG, hbuild, hempty, hres, hvals⟩ := h
+  have he : (SchemaBuild.addDocument (SchemaBuild.Builder.new false false) M.doc).errors = [] := by
+    have h1 : (SchemaBuild.build (SchemaBuild.Builder.new false false) [M.doc]).errors =
+      SchemaBuild.sortBy SchemaBuild.Err.lt
+        (SchemaBuild.finishRaw (SchemaBuild.addDocument (SchemaBuild.Builder.new false false) M.doc)).errors := rfl
+    rw [h1, SchemaBuild.sortBy_nil_iff] at hbuild
+    exact Classical.byContradiction fun hne =>
+      (SchemaBuild.finishRaw_mono _ (SchemaBuild.addDocument_adopt M.doc (SchemaBuild.Builder.new false false))).ne_nil hne hbuild
+  have hadopt := ((SchemaBuild.scan_spec M.doc M.docWellFormed).2 he).adopt
+  have htypes : (SchemaBuild.build (SchemaBuild.Builder.new false false) [M.doc]).types =
+      (SchemaBuild.addDocument (SchemaBuild.Builder.new false false) M.doc).types :=
+    SchemaBuild.finishRaw_types _ hadopt
+  refine ⟨valid_implies_invariants_full2 limit M.toMSchemaG hG,
+    (C14.schema_build_iff_spec M.doc M.docWellFormed).mp hbuild,
+    (C14.nonempty_rule_iff_spec M.doc M.docWellFormed hbuild).mp hempty, ?_,
+    (C14.reserved_rule_iff_spec M.introduced).mp hres, ?_⟩
+  · intro n t hf
+    rw [htypes] at hf
+    exact (C14.built_type_has_all_members M.doc M.docWellFormed he n t hf).1
+  · intro p hp
+    exact (C14.value_rule_iff_spec M.valueSchema M.valueSchemaClosed p.1 (M.argTypesDefined p hp) p.2).mp (hvals p hp)
+
 -- Non-vacuity
 example : Accepts 32 ⟨[[⟨true, 1⟩], [⟨false, 0⟩]], [⟨true, []⟩, ⟨true, [0]⟩, ⟨false, [1, 0]⟩],
     some (.object 2), none, none⟩ := by
